@@ -45,7 +45,7 @@ class Lock:
 def translators():
     """regenerate lean/Prom/Gen/*.lean from /repo's working tree"""
     msgs = []
-    for script, out in [("consts.py", "Consts.lean"), ("macros.py", "MacroArms.lean"), ("pbtable.py", "PbTables.lean"), ("orderings.py", "Orderings.lean")]:
+    for script, out in [("consts.py", "Consts.lean"), ("macros.py", "MacroArms.lean"), ("pbtable.py", "PbTables.lean"), ("orderings.py", "Orderings.lean"), ("charsets.py", "Charsets.lean")]:
         sp = os.path.join(ROOT, "translate", script)
         if not os.path.exists(sp):
             continue
